@@ -188,6 +188,10 @@ pub struct ProgGen {
     pub edges: Vec<(Vec<usize>, u32)>,
     /// tape of each result (C15), None for constants
     pub tape: Vec<Option<usize>>,
+    /// C15: the record's tape was cleared and the record not reset since
+    pub stale: Vec<bool>,
+    /// C15: may `operand` hand out stale records (misuse)
+    pub allow_stale: bool,
 }
 
 impl ProgGen {
@@ -202,6 +206,8 @@ impl ProgGen {
             tbits: vec![],
             edges: vec![],
             tape: vec![],
+            stale: vec![],
+            allow_stale: false,
         }
     }
     pub fn len(&self) -> usize {
@@ -237,6 +243,7 @@ impl ProgGen {
     pub fn operand(&mut self, g: &mut Gen, want_tape: Option<usize>) -> Option<usize> {
         let ok = |s: &ProgGen, k: usize| {
             s.uses[k] < 6
+                && (s.allow_stale || !s.stale[k])
                 && (s.kind == Kind::Fp || s.bits[k] <= 24)
                 && match (want_tape, s.tape[k]) {
                     (Some(t), Some(u)) => t == u,
@@ -266,6 +273,7 @@ impl ProgGen {
         self.tbits.push(tbits);
         self.edges.push((parents, wbits));
         self.tape.push(tape);
+        self.stale.push(false);
     }
 
     pub fn leaf_var(&mut self, g: &mut Gen, tape: usize) -> String {
@@ -273,7 +281,11 @@ impl ProgGen {
         let v = self.value(g);
         let via = pick_form(g, self.prefix, "var", &["record", "list"]);
         self.push(true, true, 4, 1, vec![], 0, Some(tape));
-        format!("var x{} {} via={}", k, v, via)
+        if self.prefix == "c15" {
+            format!("var r{} {} t={} via={}", k, v, tape, via)
+        } else {
+            format!("var r{} {} via={}", k, v, via)
+        }
     }
 
     pub fn leaf_const(&mut self, g: &mut Gen) -> String {
@@ -291,7 +303,7 @@ impl ProgGen {
             _ => self.value(g),
         };
         self.push(false, false, 4, 1, vec![], 0, None);
-        format!("const c{} {} via={}", k, v, via)
+        format!("const r{} {} via={}", k, v, via)
     }
 
     fn res_tape(&self, ops: &[usize]) -> Option<usize> {
@@ -457,6 +469,7 @@ impl ProgGen {
         self.bits.pop();
         self.tbits.pop();
         self.tape.pop();
+        self.stale.pop();
     }
 }
 
@@ -527,7 +540,7 @@ pub fn gen(g: &mut Gen) {
     let (n_fp, n_rat) = if g.thorough { (30000, 6000) } else { (1500, 400) };
     // hand-written cases first: one of each one-constant-operand shape
     for line in [
-        "@ tape fp", "var x0 5 via=record", "const c1 7 via=constant", "sub r2 r1 r0 via=ref_ref",
+        "@ tape fp", "var r0 5 via=record", "const r1 7 via=constant", "sub r2 r1 r0 via=ref_ref",
         "div r3 r1 r0 via=ref_ref", "mul r4 r1 r0 via=ref_ref", "add r5 r1 r0 via=ref_ref",
         "pow r6 r1 r0 via=ref_ref", "pow r7 r0 r1 via=ref_ref", "binary r8 r1 r0 fn=psq",
         "binary r9 r0 r1 fn=psq", "sum r10 r1,r0,r1,r0", "derivs r2 via=vec", "derivs r3 via=vec",
